@@ -169,4 +169,73 @@ def abi_check(chk, lean_ok):
     return cov
 
 
-SPECIAL = {"codec": codec_check, "abi": abi_check}
+def crash_check(chk, lean_ok):
+    """C04: process-death experiments on the real library under the LD_PRELOAD interposer, judged by `model crash`."""
+    import crash as crashmod
+    cov = {}
+    if not chk.harness():
+        return cov
+    so = os.path.join(VERIF, "interpose", "fsfault.so")
+    b = run(["gcc", "-shared", "-fPIC", "-O2", "-o", so, os.path.join(VERIF, "interpose", "fsfault.c"), "-ldl"])
+    if b.returncode != 0 or not os.path.exists(so):
+        chk.problems.append(("infra", "cannot build the interposer: " + b.stderr[-400:]))
+        return cov
+    plan = {"quick": ([("lifecycle", 60), ("rollback", 40), ("mixed", 40)], 220),
+            "thorough": ([("lifecycle", 400), ("rollback", 300), ("mixed", 300), ("signing", 150), ("release", 150)], 4000)}[chk.tier]
+    traces = []
+    for i, (profile, count) in enumerate(plan[0]):
+        tp = os.path.join(WORK, "crash_%d_%d.trace" % (os.getpid(), i))
+        pr = run([DRIVE_BIN, "--seed", str(chk.seed * 1000 + 50 + i), "--count", str(count), "--profile", profile, "--out", tp], env=ENV)
+        if pr.returncode != 0:
+            chk.problems.append(("infra", "drive crashed generating histories: " + pr.stderr[-300:]))
+            continue
+        traces.append(open(tp).read())
+        os.unlink(tp)
+    results = []
+    for f in sorted(glob.glob(os.path.join(VERIF, "corpus", "*.kx"))):      # minimised past failures first
+        b, p, nv, mode, lines = crashmod.replay_block(f, "corpus-" + os.path.basename(f).split(".")[0])
+        results.append(("corpus-" + os.path.basename(f).split(".")[0], b, p, nv, mode, lines))
+    results += crashmod.campaign("\n".join(traces), chk.seed, plan[1])
+    text = []
+    index = {}
+    for eid, block, p, nv, mode, lines in results:
+        if lines:
+            text += lines
+            index[eid] = (block, p, nv, mode)
+    out = run([MODEL_BIN, "crash"], inp="\n".join(text) + "\n").stdout
+    experiments = points = diffs = jfails = 0
+    seen = set()
+    modes = {}
+    for line in out.splitlines():
+        if line.startswith("STATS"):
+            kv = dict(x.split("=") for x in line.split()[1:])
+            experiments, points, diffs, jfails = int(kv["hists"]), int(kv["steps"]), int(kv["diffs"]), int(kv["jfails"])
+        elif line.startswith("J C04 "):
+            eid = line.split()[2]
+            why = line.split(" ", 5)[5] if len(line.split(" ", 5)) > 5 else line
+            sig = "C04:" + re.sub(r"[0-9]+", "N", why.split("C04:")[-1])[:120]
+            if sig in seen or eid not in index:
+                continue
+            seen.add(sig)
+            block, p, nv, mode = index[eid]
+            path = chk.save_replay("C04-%s.kx" % hashlib.sha1(sig.encode()).hexdigest()[:10], crashmod.make_replay_file(block, p, nv, mode, why))
+            chk.violations.append({"replay": path, "signature": sig, "why": why})
+        elif line.startswith(("XDIFF", "XBAD")):
+            if not any(k == "correspondence" for k, _ in chk.problems):
+                chk.problems.append(("correspondence", "the real library's state files at a process death are not a crash state of the model: " + line[:600]))
+    for eid, block, p, nv, mode, lines in results:
+        modes[mode + ("+release-change" if nv else "")] = modes.get(mode + ("+release-change" if nv else ""), 0) + 1
+    op_kinds = {}
+    for eid, block, p, nv, mode, lines in results:
+        k = ops_of(block)[p].split()[1]
+        op_kinds[k] = op_kinds.get(k, 0) + 1
+    cov.update(evaluations=points, distinct_nontrivial=points,
+               rule="one evaluation = one process death: the real library killed immediately before (or half-way through) its k-th mutating file-system call of a launch [init ; call], followed by a real re-launch; k enumerates every such call of the launch",
+               experiments=experiments, crash_points=points, disagreements_relevant=diffs, monitor_rejections=jfails,
+               experiment_kinds=modes, interrupted_calls=op_kinds,
+               samples=[{"experiment": eid, "interrupted_call": ops_of(block)[p][2:80], "release_change": bool(nv), "mode": mode}
+                        for eid, block, p, nv, mode, lines in results[:3]])
+    return cov
+
+
+SPECIAL = {"codec": codec_check, "abi": abi_check, "crash": crash_check}
